@@ -45,7 +45,7 @@ def _module_specs():
     ]
 
 
-PRIORS = ["NormalPrior", "LogNormalPrior", "GammaPrior", "HalfNormalPrior", "HalfCauchyPrior", "UniformPrior", "MultivariateNormalPrior", "SmoothedBoxPrior", "HorseshoePrior", "LKJPrior", "LKJCholeskyFactorPrior"]
+PRIORS = ["NormalPrior", "LogNormalPrior", "GammaPrior", "HalfNormalPrior", "HalfCauchyPrior", "UniformPrior", "MultivariateNormalPrior", "SmoothedBoxPrior", "HorseshoePrior", "LKJPrior", "LKJCholeskyFactorPrior", "LKJCovariancePrior"]
 
 
 def cases(tier, seed):
@@ -57,6 +57,9 @@ def cases(tier, seed):
         for spec in _module_specs():
             for regime in ("interior", "nearbound", "large", "oob"):
                 yield {"kind": "setter", "module": spec, "regime": regime, "seed": rnd.randrange(10**6)}
+            # every constrained parameter gets a constraint of its own, different from all its siblings'
+            for regime in ("interior", "oob"):
+                yield {"kind": "setter", "module": spec, "regime": regime, "custom": True, "seed": rnd.randrange(10**6)}
             yield {"kind": "sequence", "module": spec, "length": rnd.randint(3, 8), "seed": rnd.randrange(10**6)}
         for pr in PRIORS:
             for variant in range(2):
@@ -224,9 +227,17 @@ def _setter(case, ctx, g):
     if not pairs:
         ctx.reject("no constrained parameter with a public setter")
         return
+    if case.get("custom"):
+        import gpytorch.constraints as C
+
+        for i, (mod, pub, cons, raw) in enumerate(pairs):
+            if bool((cons.lower_bound >= 0).all()):
+                new = C.Interval(0.3 + 0.07 * i, 3.0 + 0.5 * i) if i % 2 == 0 else C.GreaterThan(0.2 + 0.05 * i)
+                mod.register_constraint(raw, new)
+        pairs = _constrained_pairs(module)
     for mod, pub, cons, raw in pairs:
         cur = getattr(mod, pub).detach().clone()
-        cls = f"{type(mod).__name__}.{pub}"
+        cls = f"{type(mod).__name__}.{pub}" + (":custom" if case.get("custom") else "")
         if case["regime"] == "oob":
             probes = []
             if torch.isfinite(cons.lower_bound).all():
@@ -446,6 +457,34 @@ def _prior(case, ctx, g):
         A = (s / xs) ** 2
         ref = torch.log((Kc / 2 * torch.log(1 + 4 * A) + Kc * torch.log(1 + 2 * A)) / 2)
         cmp(pr, xs, ref)
+        ctx.hit("prior_normalised", 0)
+    elif name == "LKJCovariancePrior":
+        # documented composition: LKJ density of the correlation matrix D^-1 Sigma D^-1 (D = diag of standard deviations)
+        # plus the sd prior's density of the standard deviations; the LKJ factor itself is decided by the LKJPrior cell
+        n, eta = (3, 1.5) if var == 0 else (4, 0.7)
+        a_, b_ = 2.0, 1.5
+        sdp = P.GammaPrior(a_, b_)
+        pr = P.LKJCovariancePrior(n, eta, sdp)
+        lkj = P.LKJPrior(n, eta)
+        got, ref = [], []
+        for _ in range(30):
+            A = util.randn(g, n, n)
+            S = A @ A.T + 0.3 * torch.eye(n)
+            S = S * (0.2 + 3 * util.rand(g, n)).unsqueeze(-1) * (0.2 + 3 * util.rand(g, n)).unsqueeze(-2)
+            S = 0.5 * (S + S.T)
+            S = S @ S.T / n  # symmetric positive definite with clearly unequal variances
+            sd = [math.sqrt(float(S[i, i])) for i in range(n)]
+            R = torch.tensor([[float(S[i, j]) / (sd[i] * sd[j]) for j in range(n)] for i in range(n)])
+            R = 0.5 * (R + R.T)
+            with torch.no_grad():
+                # with a scalar-event sd prior the library returns one entry per standard deviation: LKJ term + that sd's term
+                try:
+                    got.append(pr.log_prob(S).reshape(-1))
+                except Exception as e:
+                    ctx.fail("prior_log_prob", f"LKJCovariancePrior.log_prob of a valid covariance matrix raised {type(e).__name__}: {str(e)[:100]}", "raise", prior=name)
+                    return ctx.cell({k: v for k, v in case.items() if k != "seed"})
+                ref.append(float(lkj.log_prob(R).reshape(-1).sum()) + torch.as_tensor(st.gamma(a_, scale=1 / b_).logpdf(sd)))
+        ctx.close("prior_log_prob", torch.stack(got), torch.stack(ref), (1e-8, 1e-8), cls=cls)
         ctx.hit("prior_normalised", 0)
     elif name in ("LKJPrior", "LKJCholeskyFactorPrior"):
         n, eta = (3, 1.5) if var == 0 else (4, 0.7)
